@@ -104,13 +104,15 @@ CLAIMED = {
     'C03': (['Dispatch', 'MC_Dispatch', 'Trace_Dispatch'],
             "TLA+ spec Dispatch.tla (CPython event streams per thread, Fires/Matching, invariants Placement, action "
             "properties NoMiss / NoActionElsewhere) model-checked with TLC; live executions of script-driven host "
-            "programs under the real agent logged per trace event and validated against the spec by TLC (fired set = "
-            "Matching at every event)",
+            "programs under the real agent (configured through the real TracepointConfigService, with tracepoints "
+            "registered in code and configuration changes in mid-run; the trace wrapper emulates CPython's local-trace "
+            "semantics) logged per trace event and validated against the spec by TLC (fired set = Matching at every "
+            "event), once against the code's named deviation IdleFramesBlind and once against the property as stated",
             "Exhaustive within bounds on the model (1-2 thread idents, <=6 events, two files with equal function names, "
             "two tracepoints on one line, method tracepoints); bound to the code by validating every event of live runs "
             "(thousands of events per run set, threads started after installation, never-executed locations). Programs "
             "beyond the bounds are explored, not exhausted.",
-            TRUSTED + "; tracepoints are installed before the program starts; limiter disabled via fire_count=-1"),
+            TRUSTED + "; limiter disabled via fire_count=-1"),
     'C15': (['Dispatch', 'MC_Dispatch', 'Trace_Dispatch'],
             "TLA+ spec Dispatch.tla (pending-callback stack per thread ident with ident reuse; invariants ExactlyOnce, "
             "ClosedWhenInvocationEnds, SameThread, NothingLeft; the configuration may be replaced while work is pending) "
